@@ -13,8 +13,8 @@
 (*         one = effective lower bound of the next): tiling is judged      *)
 (*   ev    launches: via ("load" | "apply" | "train"), lo, hi (NONE = not  *)
 (*         given), last (ordinal of the last training tag, NONE if none),  *)
-(*         res ("ok" | "refused" | anything else = crashed), rows (ids of  *)
-(*         the records delivered, with repetitions)                        *)
+(*         res ("ok" | "refused" = the launch raised), rows (ids of the    *)
+(*         records delivered, with repetitions)                            *)
 (* A launch is accepted iff the delivered bag is exactly the window the    *)
 (* documented semantic denotes (or the launch is refused where it must     *)
 (* be); a chained trace is accepted iff, in addition, the delivery counts  *)
